@@ -86,6 +86,7 @@ PROPS['C19'] = {
 }
 
 TIM = 'cloud::__verif_timing::'
+NODE_PEERS_DRV = {'file': 'native/node_peers.rs', 'attach': 'src/tests/common.rs', 'test': 'peers_time_out_when_silent_and_never_when_healthy'}
 PEERS_TRUSTED = [
     'unit peers: the claim table is an opaque environment observed through announced(peer) / routes_to(peer); ClaimTable::set_claims / remove_claims carry the contracts proved for them in unit table, restated over these observers',
     'unit peers: GenericCloud::connect_to_peers / connect_sock are environment functions assumed not to touch the peer map or the table; the clock does not advance within one operation',
@@ -95,6 +96,7 @@ PROPS['C15'] = {
     'level': 'proof',
     # what refreshes a peer and with which timeout; when it is removed
     'verus': [{'unit': 'peers', 'fns': ['GenericCloud::update_peer_info', 'GenericCloud::housekeep_expiry_block', 'lemma_take_contains', 'canary_.*']}],
+    'native_search': {r'peers::GenericCloud.*': NODE_PEERS_DRV, r'kani::timing::housekeep_interval.*': NODE_PEERS_DRV},
     'kani': {
         'files': {'src/cloud.rs': ['kani/timing.rs.in']},
         'harnesses': [
@@ -255,7 +257,7 @@ PROPS['C12'] = {
               # information sets exactly the announced claims (update_peer_info)
               {'unit': 'peers'}],
     'native_search': {'table::ClaimTable::set_claims': [{'file': 'native/table_setclaims.rs', 'attach': 'src/table.rs', 'test': 'claims_equal_last_announcement'}, TABLE_MODEL],
-                      r'table::.*': TABLE_MODEL},
+                      r'table::.*': TABLE_MODEL, r'peers::GenericCloud.*': NODE_PEERS_DRV},
     'trusted': TABLE_TRUSTED + PEERS_TRUSTED,
     'not_decided': [
         'node level, remaining: GenericCloud::crypto_housekeep removes a peer whose per-peer crypto tick fails WITHOUT remove_claims (reading: PeerCrypto::every_second does not fail for an established peer, so this is not reached in practice); the repair path of handle_interface_data (next hop not a peer) is unreachable behind `send_msg(..)?` (reading); add_new_peer',
